@@ -80,7 +80,7 @@ fn single(idx: u64, rng: &mut Rng, mon: &mut Mon) {
             2 => 1.0,
             _ => rng.f(),
         };
-        Some(Constraints::new(from, to, w))
+        Some(if rng.bool(0.25) { via_update_range(rng, from, to, w) } else { Constraints::new(from, to, w) })
     };
     let kin = match cons {
         None => OPWKinematics::new(to_params(&rp)),
